@@ -646,6 +646,26 @@ def lf1(F, R):
                 v = [o for o in ops if o[0] == "var"]
                 c = [o for o in ops if o[0] == "c" and isinstance(o[1], int) and 0 < o[1] <= 512]
                 good = False
+                # an item of a constant integer range (`for off in (0..512).step_by(32)`): below the range's end, so adding a
+                # small constant cannot overflow
+                if len(c) == 1 and len(ops) == 2:
+                    from .dataflow import var_def_terms as _vdt
+                    for o in ops:
+                        q = o
+                        if q[0] == "place" and tuple(q[2]) == ("as:Some", "0") and q[1][0] == "call" and (q[1][1] or "").endswith("Iterator::next") and len(q[1][2]) == 1:
+                            it = strip_refs(q[1][2][0])
+                            for _k in range(6):
+                                if it[0] == "var":
+                                    ds_ = [strip_refs(d) for d in _vdt(fn, it[1])]
+                                    if len(ds_) != 1:
+                                        break
+                                    it = ds_[0]
+                                elif it[0] == "call" and (it[1] or "").split("::")[-1] in ("into_iter", "step_by") and it[2]:
+                                    it = strip_refs(it[2][0])
+                                else:
+                                    break
+                            if it[0] == "agg" and (it[2] or "").split("::")[-1] == "Range" and len(it[3]) == 2 and all(z[0] == "c" and isinstance(z[1], int) and 0 <= z[1] <= (1 << 32) for z in it[3]):
+                                good = True
                 if len(v) == 1 and len(c) == 1:
                     from .dataflow import var_def_terms
                     ds = [strip_refs(d) for d in var_def_terms(fn, v[0][1])]
